@@ -156,6 +156,13 @@ func (d *jsonlineDecoder) readArray() ([]DecodedAmmo, error) {
 	if err != nil {
 		return nil, fmt.Errorf("cant readArray, err: %w", err)
 	}
+	// Nothing but white space may follow the array: whatever stands there would never be read.
+	if _, err = d.decoder.Token(); err != io.EOF {
+		if err == nil {
+			err = errors.New("unexpected data after the array")
+		}
+		return nil, fmt.Errorf("cant readArray, err: %w", err)
+	}
 	result := make([]DecodedAmmo, len(data))
 	for i, datum := range data {
 		header := d.decodedConfigHeaders.Clone()
